@@ -75,7 +75,8 @@ def run_impl(case):
         m = TriaMesh(v.copy(), t.copy())
         pre = {}
         try:
-            pre["loops"] = len(m.boundary_loops())
+            val, to = core.call_limited(lambda: len(m.boundary_loops()), 3.0)
+            pre["loops"] = to or val
         except Exception as e:
             pre["loops"] = core.errkind(e)
         m.is_oriented()
@@ -84,7 +85,8 @@ def run_impl(case):
         out["t"] = m.t.tolist()
         out["pre_loops"] = pre["loops"]
         try:
-            out["post_loops"] = len(m.boundary_loops())
+            val, to = core.call_limited(lambda: len(m.boundary_loops()), 3.0)
+            out["post_loops"] = to or val
         except Exception as e:
             out["post_loops"] = core.errkind(e)
         fresh = TriaMesh(m.v, m.t)
